@@ -142,7 +142,7 @@ def run(ctx):
         ctx.cov['discharged'] = 0
 
     # ---- cases ---------------------------------------------------------------
-    n_env1, n_env2, n_free = (60, 60, 80) if not deep else (600, 600, 800)
+    n_env1, n_env2, n_free = (60, 60, 80) if not deep else (400, 400, 500)
     length = 30
     cases = [
         {'initial': None, 'events': WITNESS_CROSSTALK + [['Done', 0]] * 8, 'class': 'witness-crosstalk'},
@@ -155,12 +155,12 @@ def run(ctx):
     for i in range(n_free):
         cases.append(FC.free_case(random.Random('%s:free:%d' % (ctx.seed, i)), length))
     if deep:
-        # exhaustive small scope: all hand-fired trigger/completion sequences of length <= 3 from every state
+        # exhaustive small scope: all hand-fired trigger/completion sequences of length 2 from every state
         import itertools
         alpha = [['Fire', t + '_trigger'] for t in FC.TRIGGERS] + [['Done', 0], ['Done', 1]]
         for init in FC.STATES:
-            for seq in itertools.product(alpha, repeat=3):
-                cases.append({'initial': init, 'events': [list(e) for e in seq], 'class': 'exhaustive3'})
+            for seq in itertools.product(alpha, repeat=2):
+                cases.append({'initial': init, 'events': [list(e) for e in seq], 'class': 'exhaustive2'})
 
     out = ctx.harness('drive_fsm.py', {'cases': [{'initial': c['initial'], 'events': c['events']} for c in cases]})
     runs, edges = out['runs'], out['edges']
